@@ -668,6 +668,16 @@ func runC15(c *core.Ctx, ck *Check) {
 					for n := r.IntN(6); n > 0; n-- {
 						argv = append(argv, ver())
 					}
+					// an element whose text needs escaping when quoted (control characters, quotes, backslash,
+					// surrounding blanks), if this ecosystem's parser accepts such a spelling
+					if e := eco.ByName(j.name); e != nil && r.IntN(2) == 0 {
+						base := gen.One(gname, r)
+						for _, v := range []string{base + "\t", "\n" + base, "\"" + base + "\"", base + "\\", base + "\r", " " + base, base + " \"x", "'" + base + "'", base + "\x7f"} {
+							if pv, err, pn := e.SafeNewVersion(v); pn == nil && err == nil && pv != nil && r.IntN(2) == 0 {
+								argv = append(argv, v)
+							}
+						}
+					}
 				default:
 					for n := r.IntN(3); n > 0; n-- {
 						argv = append(argv, ver())
